@@ -130,13 +130,17 @@ class _WindowBasePlugin(PrimitiveLeafPlugin):
         final_result = result
         if self._AFFINE_SCALE_BIAS is not None:
             scale_val, bias_val = self._AFFINE_SCALE_BIAS
+            # keep the coefficients at the precision of the window they correct
+            coeff_dtype = (
+                np.float64 if target_enum == ir.DataType.DOUBLE else np.float32
+            )
             scale_const = ctx.builder.add_initializer_from_scalar(
                 name=ctx.fresh_name(f"{self._FUNC_NAME}_scale"),
-                value=np.asarray(scale_val, dtype=np.float32),
+                value=np.asarray(scale_val, dtype=coeff_dtype),
             )
             bias_const = ctx.builder.add_initializer_from_scalar(
                 name=ctx.fresh_name(f"{self._FUNC_NAME}_bias"),
-                value=np.asarray(bias_val, dtype=np.float32),
+                value=np.asarray(bias_val, dtype=coeff_dtype),
             )
             scaled = ctx.builder.Mul(
                 result,
